@@ -68,6 +68,39 @@ CHECKS = {
             "Trusted: quick-find model; Miri's aliasing models; element types with ordinary Hash/Eq.", "6/C20"),
 }
 
+
+# Workloads and lanes added after the seeded-change rounds (DESIGN.md 12.1 / 12.6): appended to the texts above.
+# id -> (technique suffix, level text suffix, level note suffix)
+ADDED = {
+    "C01": ("; coverage-guided libFuzzer lane (cargo-fuzz target parse_dsym, 16 processes) with the same oracle inside the target; release-build lane",
+            " Numbers at the 2^8/2^16/2^32/2^53 boundaries in every field; multi-byte UTF-8 at every offset; 65540-chamber strip.", ""),
+    "C02": ("; grow histories in mixed increments replayed against the model; release-build lane",
+            " A ladder with 65540 chambers (beyond u16) in every representation; predicates also judged on incomplete sets; boundary branching numbers.", ""),
+    "C03": ("; the library's own == on canonical forms compared with model isomorphism",
+            " Branching numbers at the 2^8/2^16/2^32 boundaries; a 65540-chamber strip in two numberings.", ""),
+    "C04": ("; Miri and ASan lanes for fold -> Partition",
+            " Degrees at the 2^8/2^16/2^32 boundaries, flag systems of polyhedra / tori / 4-polytopes (24-384 chambers), morphisms between same-set symbols with different degrees.", ""),
+    "C05": ("", " Subgroup covers from long multi-generator subgroups of large finite Coxeter groups; sheet bounds up to 8-9 on small oriented symbols.", ""),
+    "C06": ("", " Quick tier brute-forces (2,11), (3,10), (4,7) as well.", ""),
+    "C07": ("", " Plus structured sets: flag systems of the tetrahedron, cube, dodecahedron, hemi-cube, hemi-dodecahedron, tori (24-120 chambers).", ""),
+    "C08": ("", " Branching numbers 10-12 and at the 2^8..2^53 boundaries; every representation judged.", ""),
+    "C09": ("", " Every 3D D-set with 6-8 chambers from the library's generator (validated by the model) with all admissible branchings.", ""),
+    "C10": ("", " Histories with letter 0, offsets in -3len..3len, words up to 3000 letters, all four operand forms.", ""),
+    "C11": ("; Miri and ASan lanes for coset_table -> IntPartition",
+            " Hostile families: presentation + killing relator (whole-table collapse in one scan), redundant generators, long multi-generator subgroups, empty words.", ""),
+    "C12": ("", " Presentations with a redundant third generator, cyclic groups with a trivial generator, rotation subgroups up to index 8-9.", ""),
+    "C13": ("; cases with > 256-row inputs are judged in a child process under RLIMIT_AS (an unbounded BFS is observed as process-died-under-resource-limit)",
+            " Cores of regular dihedral tables with 300-2000 rows (beyond u8), intersections whose product orbit exceeds 65536 rows (beyond u16).", ""),
+    "C14": ("", " Non-chain diagonals (4+ pairwise non-dividing entries), doubling chains with 64 generators and torsion near 2^32, relators of length ~257.",
+            " KNOWN FINDING (not repaired): isize overflow in the elimination on dense matrices, identified by call site (6 known: lines); the check prints KNOWN-FINDING and exits 0 for those sites only."),
+    "C15": ("", " Corpus closed under duals, renumberings and validated covers with up to 18 (thorough 32) chambers / 6 (8) sheets, each cover also dualised and renumbered.", ""),
+    "C16": ("; ASan lane via C17", " Duals of the corpus, 10-48 renumberings of every corpus cover, externally reported numberings as regression inputs, lens spaces L(p,q) with 4p chambers (p <= 17, thorough all p <= 24) built by the harness's coset enumeration. None on a corpus torus cover is a violation (other numberings give the cube).", ""),
+    "C17": ("; ASan lane for orbifold_graph", " Verdict on the certificate cover itself; covers of corpus symbols with up to 18 (32) chambers / 6 (8) sheets.", ""),
+    "C18": ("", " Systems whose rational solution has vanishing p-adic digits (x = a + b p^k); moduli interleaved on each worker; periodic-graph position cache.", ""),
+    "C19": ("", " Layered networks with 12-40 vertices, sparse non-contiguous labels, antiparallel arc pairs.", ""),
+    "C20": ("", " Binomial-tree histories (maximal rank), queries of several hundred interleaved elements, an element type whose Hash is coarser than its Eq.", ""),
+}
+
 NOT_YET = {
 }
 
@@ -78,6 +111,8 @@ def main():
     for pid in ids:
         if pid in CHECKS:
             tech, text, note, ref = CHECKS[pid]
+            a = ADDED.get(pid, ("", "", ""))
+            tech, text, note = tech + a[0], text + a[1], note + a[2]
             checks.append({
                 "property_id": pid,
                 "quick_cmd": f"bin/check {pid} quick",
@@ -113,7 +148,7 @@ def main():
         }],
         "checks": checks,
         "not_applicable": not_applicable,
-        "notes": "Verdicts are three-valued: exit 0 held / exit 1 VIOLATION / exit 2 INCONCLUSIVE (never a VIOLATION line). Known findings: known_findings.txt (fixed: entries suppress nothing). VERIF_SEED seeds all sampled workloads; enumerated parts do not depend on it.",
+        "notes": "Verdicts are three-valued: exit 0 held / exit 1 VIOLATION / exit 2 INCONCLUSIVE (never a VIOLATION line). Known findings: known_findings.txt (fixed: entries suppress nothing; 6 known: entries, all C14, keyed by call site). The monitor process runs under an address-space fuse (RLIMIT_AS 44 GiB); its abnormal end is INCONCLUSIVE. VERIF_SEED seeds all sampled workloads; enumerated parts do not depend on it.",
     }
     with open(os.path.join(ROOT, "MANIFEST.json"), "w") as f:
         json.dump(manifest, f, indent=1)
